@@ -1,7 +1,7 @@
 (* Properties.v — the property theorems, and nothing else.  Each is closed by [exact] of a lemma
    proved in the Proofs* files and followed by Print Assumptions. *)
 From Coq Require Import Permutation.
-From Godi Require Import Base GDfs GKahn GKahnComplete GraphSpec Conc Web Model Check ProofsGraph ProofsConc ProofsWeb ProofsRegistry ProofsRuntime ProofsClosed ProofsTerm ProofsWf ProofsSingle ProofsOutputs ProofsFresh ProofsGen ProofsFrame ProofsFrozen.
+From Godi Require Import Base GDfs GKahn GKahnComplete GraphSpec Conc Web Model Check ProofsGraph ProofsConc ProofsWeb ProofsRegistry ProofsRuntime ProofsClosed ProofsTerm ProofsWf ProofsSingle ProofsOutputs ProofsFresh ProofsGen ProofsFrame ProofsFrozen ProofsOnce.
 
 (* ---------------------------------------------------------------- C01 *)
 Theorem C01_resolving_a_singleton_is_a_table_read : forall fuel rs h d,
@@ -231,6 +231,16 @@ Theorem C10_close_closes_each_exactly_once : forall c own l,
 Proof. exact close_insts_exact. Qed.
 Print Assumptions C10_close_closes_each_exactly_once.
 
+(* "closed exactly once", the ownership half: the disposal lists of a provider and of all its scopes never hold an
+   instance twice, and every instance they hold was made by an invocation that has been counted - an invariant of
+   every resolution, for every registration set without disposable instance values (those are not created by the
+   container).  A Close then closes exactly the entries of the lists it takes (C10_close_closes_each_exactly_once). *)
+Theorem C10_every_constructed_instance_is_owned_exactly_once : forall c,
+  (forall d, In d c -> desc_ok d) ->
+  forall fuel rs h d, In d c -> Once c rs -> Once c (fst (resolve_d fuel rs h d)).
+Proof. exact resolution_lists_each_instance_once. Qed.
+Print Assumptions C10_every_constructed_instance_is_owned_exactly_once.
+
 (* "and not before": a resolution closes nothing - every event it logs is a constructor invocation (or the
    notice of a cancelled Build) - and the scope's disposal list only grows: what is owned stays owned until a Close *)
 Theorem C10_resolution_closes_nothing : forall fuel rs h d,
@@ -400,6 +410,13 @@ Theorem C16_handle_swallows_panics_iff_recovery : forall s,
   (In HPanicHandler (handle_trace s) <-> h_recovery s = true) /\ (In HPanicEscaped (handle_trace s) <-> h_recovery s = false).
 Proof. exact handle_panic_swallowed_iff. Qed.
 Print Assumptions C16_handle_swallows_panics_iff_recovery.
+
+(* requests answered by an integration's default error handler (not instrumented in the harness) are read without the
+   user error handler's event; the model's trace minus that event meets that reading, for every scenario *)
+Theorem C16_model_meets_the_default_handler_reading : forall s, valid_scen s ->
+  holds_request_default s (filter not_errh (mw_trace s)) = true.
+Proof. exact model_meets_default_handler_reading. Qed.
+Print Assumptions C16_model_meets_the_default_handler_reading.
 
 (* ---------------------------------------------------------------- C17 *)
 Theorem C17_rejected_registration_is_atomic : forall c v r c' v' e,
